@@ -96,3 +96,18 @@ CHECKS["C14"] = dict(
                "(no unsound as-is / skip decision in the providers), not the runtime types of converted objects.",
     design_ref="DESIGN.md 3/C14",
 )
+
+CHECKS["C18"] = dict(
+    category="other",
+    technique="partial-function guard analysis of enum/flag factories; mapping-inversion and loader/dumper pairing "
+              "rules; flag mask validation rules",
+    text="Decides creation totality (no partial stdlib function is applied to an unguarded member value inside the "
+         "factories, so zero-valued flag members cannot break loader/dumper creation), that the loading table is the "
+         "exact inversion of the dumping table over the same cases for every provider using a mapping generator, that "
+         "the exact-value flag loader exists only for non-negative contiguous masks and checks exact ints within "
+         "[0, mask], and that the exact-value enum loader rejects members themselves. Necessary structural conditions "
+         "of the bijection, not the bijection on concrete enums.",
+    level_note="Trusted: Python ast. Assumes enum classes have a member. Exception escape of the loader closures is "
+               "decided under C04.",
+    design_ref="DESIGN.md 3/C18",
+)
